@@ -738,6 +738,69 @@ def parse_score_conv():
     return rows
 
 
+# ------------------------------------------------------------------ TryFrom<OsuPerformance> (C07 / C04)
+
+def parse_perf_conv():
+    """`impl TryFrom<OsuPerformance> for {Taiko,Catch,Mania}Performance`: which field of the osu!
+    builder each field of the target builder is initialised from ("None", "map", or "?..." if the
+    shape is not the plain destructure-and-rebuild one)"""
+    rows = []
+    osu_fields = []
+    no = norm(strip_comments(read("src/osu/performance/mod.rs")))
+    sm = re.search(r"pub struct OsuPerformance<'map> \{(.*?)\}", no)
+    if sm:
+        osu_fields = [re.sub(r"pub(\([a-z]+\))? ", "", f.strip()).split(":")[0].strip() for f in sm.group(1).split(",") if ":" in f]
+    for mode, path in (("Taiko", "src/taiko/performance/mod.rs"), ("Catch", "src/catch/performance/mod.rs"),
+                       ("Mania", "src/mania/performance/mod.rs")):
+        nc = norm(strip_test_modules(strip_comments(read(path))))
+        im = re.search(r"impl<'map> TryFrom<OsuPerformance<'map>> for " + mode + r"Performance<'map> \{(.*?)\n?\} impl", nc + " impl")
+        fields = []
+        if not im:
+            rows.append(f"({mode}, [(\"?\", \"?no impl\")])")
+            continue
+        body = im.group(1)
+        dm = re.search(r"let OsuPerformance \{(.*?)\} = osu;", body)
+        binds = {}
+        if dm:
+            for part in dm.group(1).split(","):
+                part = part.strip()
+                if not part:
+                    continue
+                if ":" in part:
+                    k, v = [x.strip() for x in part.split(":", 1)]
+                    binds[v] = k if v != "_" else None
+                    if v == "_":
+                        binds.pop(v, None)
+                else:
+                    binds[part] = part
+        cm = re.search(r"Ok\(Self \{(.*?)\}\)", body)
+        if not cm:
+            rows.append(f"({mode}, [(\"?\", \"?no constructor\")])")
+            continue
+        for part in cm.group(1).split(","):
+            part = part.strip()
+            if not part:
+                continue
+            if part.startswith(".."):
+                fields.append(("..", "?" + part))
+                continue
+            if ":" in part:
+                dst, expr = [x.strip() for x in part.split(":", 1)]
+            else:
+                dst, expr = part, part
+            if expr == "None":
+                src = "None"
+            elif expr == "MapOrAttrs::Map(map)":
+                src = "map"
+            elif expr in binds and binds[expr]:
+                src = binds[expr]
+            else:
+                src = "?" + expr
+            fields.append((dst, src))
+        rows.append(f"({mode}, {coq_list(['(' + coq_str(d) + ', ' + coq_str(e) + ')' for d, e in fields])})")
+    return rows, osu_fields
+
+
 # ------------------------------------------------------------------ bpm comparator (C01)
 
 def parse_bpm_facts():
@@ -768,6 +831,7 @@ def generate():
     lifetimes = parse_lifetimes()
     bpm_facts = parse_bpm_facts()
     score_conv = parse_score_conv()
+    perf_conv, osu_perf_fields = parse_perf_conv()
     L = []
     A = L.append
     A("(* GENERATED by tools/extract.py from the repository's current source - do not edit.")
@@ -834,6 +898,9 @@ def generate():
     A("Definition feature_sites : list (string * string) :=\n  " + coq_list(features).replace("; (", ";\n   (") + ".")
     A("(* `impl From<A> for B` between ScoreState and the four mode states: (A, B, [(field of B, field of A or 0)]) *)")
     A("Definition score_conv : list (string * string * list (string * string)) :=\n  " + coq_list(score_conv).replace("; (\"", ";\n   (\"") + ".")
+    A("(* TryFrom<OsuPerformance> for the other modes' builders: (target mode, [(target field, osu! field | None | map)]) *)")
+    A("Definition perf_conv : list (mode * list (string * string)) :=\n  " + coq_list(perf_conv).replace("; (", ";\n   (") + ".")
+    A("Definition osu_perf_fields : list string := " + coq_list([coq_str(f) for f in osu_perf_fields]) + ".")
     A("(* the comparator of Beatmap::bpm that Model/Bpm.v transcribes *)")
     A("Definition bpm_facts : list (string * bool) :=\n  " + coq_list(bpm_facts).replace("; (", ";\n   (") + ".")
     A("(* facts the ownership argument of C11 rests on, each checked against the current source *)")
